@@ -496,13 +496,16 @@ class SoftwareSwitchBase (object):
     if err.data is not None: err.data = err.data[:0xffFF - 12]
     self.send(err, connection = connection)
 
-  def rx_packet (self, packet, in_port, packet_data = None):
+  def rx_packet (self, packet, in_port, packet_data = None,
+                 resubmitted = False):
     """
     process a dataplane packet
 
     packet: an instance of ethernet
     in_port: the integer port number
     packet_data: packed version of packet if available
+    resubmitted: True if the packet comes from an output to OFPP_TABLE
+                 rather than from the port
     """
     assert assert_type("packet", packet, ethernet, none_ok=False)
     assert assert_type("in_port", in_port, int, none_ok=False)
@@ -535,11 +538,12 @@ class SoftwareSwitchBase (object):
           else:
             self.log.warn("Illegal fragment processing mode: %i", frag_mode)
 
-    self.port_stats[in_port].rx_packets += 1
-    if packet_data is not None:
-      self.port_stats[in_port].rx_bytes += len(packet_data)
-    else:
-      self.port_stats[in_port].rx_bytes += len(packet.pack()) # Expensive
+    if not resubmitted:
+      self.port_stats[in_port].rx_packets += 1
+      if packet_data is not None:
+        self.port_stats[in_port].rx_bytes += len(packet_data)
+      else:
+        self.port_stats[in_port].rx_bytes += len(packet.pack()) # Expensive
 
     self._lookup_count += 1
     entry = self.table.entry_for_packet(packet, in_port)
@@ -714,7 +718,7 @@ class SoftwareSwitchBase (object):
       # will result in a send-to-controller which may send back to table...)
       # Resubmit a copy; the rest of this action list and whatever the table
       # does with the packet (rewrite it, buffer it) must not see each other
-      self.rx_packet(ethernet(raw=packet.pack()), in_port)
+      self.rx_packet(ethernet(raw=packet.pack()), in_port, resubmitted=True)
     else:
       self.log.warn("Unsupported virtual output port: %d", out_port)
 
